@@ -1344,9 +1344,7 @@ class TimeSeries(TimeSeriesBase):
             raise ValueError('e has to be of Epochs type')
 
         if e.data.ndim == 0:
-            return TimeSeries(data=self.data[..., self.time.slice_during(e)],
-                              time_unit=self.time_unit, t0=e.offset,
-                              sampling_interval=self.sampling_interval)
+            data = self.data[..., self.time.slice_during(e)]
         else:
             # TODO: make this a more efficient implementation, naive first pass
             if (e.duration != e.duration[0]).any():
@@ -1355,9 +1353,13 @@ class TimeSeries(TimeSeriesBase):
             data = np.array([self.data[..., self.time.slice_during(ep)]
                              for ep in e])
 
-            return TimeSeries(data=data,
-                              time_unit=self.time_unit, t0=e.offset,
-                              sampling_interval=self.sampling_interval)
+        # The new series gets this series' sampling interval as it is (a whole
+        # number of base units; deriving it again from the float rate loses
+        # the last digits of intervals beyond 2**53 base units) and its rate.
+        out = TimeSeries(data=data, time_unit=self.time_unit, t0=e.offset,
+                         sampling_interval=self.sampling_interval)
+        out.sampling_rate = self.sampling_rate
+        return out
 
     @property
     def shape(self):
